@@ -502,11 +502,15 @@ Inductive Reach (s : heap) : nat -> nat -> Prop :=
 | Reach_refl : forall n, n < length s -> Reach s n n
 | Reach_step : forall n k m, edge s n k -> Reach s k m -> Reach s n m.
 
-(* trees and DAGs: some rank decreases along every child edge (the bound
-   costs nothing: the longest-path rank of a DAG is below its node count) *)
+(* trees and DAGs: some rank (any natural-number labelling of the handles)
+   strictly decreases along every child edge.  [ranked] adds a bound by the
+   number of nodes; it is what the fuel arguments use, and it costs nothing:
+   proofs/MerkleAcyclic.v builds a bounded rank from any decreasing one. *)
+Definition decreasing (rank : nat -> nat) (s : heap) : Prop :=
+  forall n m, edge s n m -> rank m < rank n.
 Definition ranked (rank : nat -> nat) (s : heap) : Prop :=
-  (forall n m, edge s n m -> rank m < rank n) /\ (forall n, rank n <= length s).
-Definition acyclic (s : heap) : Prop := exists rank, ranked rank s.
+  decreasing rank s /\ (forall n, rank n <= length s).
+Definition acyclic (s : heap) : Prop := exists rank, decreasing rank s.
 
 Definition plain (key : bytes) : Prop := key <> [] /\ ~ In SLASH key.
 
